@@ -46,6 +46,139 @@ def run(ctx, rep):
     for nt in need:
         rep.floor("R3", "states that can shift `error` for %s" % nt, seen.get(nt, 0), 1)
     rep.analysed["automaton states"] = a["state_count"]
+    recovery_model(ctx, rep, a)
     rep.assumptions += ["TB-2 lalrpop_util's recovery algorithm (drops tokens until the error production can be followed by the lookahead)", "TB-1/TB-4 for R1, R2"]
-    rep.not_decided += ["that token-dropping recovery resynchronises at the member's terminator for every garbage string and never swallows the following member",
-                        "that every syntax Error lies inside the malformed member (dynamics of the runtime recovery algorithm over all token strings: no static argument in reach bounds it)"]
+    rep.not_decided += ["malformed members longer than the bound of rule R5, and documents outside its frames (R5 explores a model of the parser - exported automaton + transcription of lalrpop_util's recovery loop - not the generated code)"]
+
+
+SAMPLE = {"IDENT": "x", "INTEGER": "1", "FLOAT": "1.5", "QUOTED_STRING": '"s"', "ANNOTATION": "@x", "DIRECTION": "in", "PRIMITIVE": "int", "BOOLEAN": "true", "RESERVED_KEYWORD": "for",
+          "PACKAGE": "package", "IMPORT": "import", "INTERFACE": "interface", "PARCELABLE": "parcelable", "ENUM": "enum", "ONEWAY": "oneway", "CONST": "const", "VOID": "void",
+          "STRING": "String", "CHAR_SEQUENCE": "CharSequence", "LIST": "List", "MAP": "Map"}
+
+
+def render(tokens):
+    return " ".join(SAMPLE.get(t, t.strip('"')) for t in tokens)
+
+
+ALLV = {}
+
+
+def recovery_model(ctx, rep, a):
+    """R5: bounded exhaustive exploration of malformed members on a model of the parser"""
+    import itertools, time
+    import lrsim
+    rep.rule("R5", "model exploration: the exported LR automaton driven by a transcription of lalrpop_util 0.19.8's parse / error_recovery loop is run on every document "
+                   "<frame> <sibling?> <malformed member> <terminator> <sibling?> where the malformed member ranges over ALL token strings up to the bound (no terminator / brace inside) that do not form a member; "
+                   "required: a tree is produced, every well-formed sibling is reduced with its own extent and in order, at least one error is recovered and every offending token lies inside the malformed member (terminator included)")
+    auto = lrsim.Auto(a)
+    vocab = [t["name"] for t in ctx.gram["terminals"] if t["name"] != "error"]
+    T = lambda s: s.split()
+    head = T('PACKAGE IDENT ";"')
+    kinds = {
+        "interface": {"open": T('INTERFACE IDENT "{"'), "elem": "OptInterfaceElement", "term": '";"', "sep": None, "exclude": {'";"', '"{"', '"}"'},
+                      "siblings": [T('VOID IDENT "(" ")" ";"'), T('IDENT IDENT "(" PRIMITIVE IDENT ")" ";"'), T('ANNOTATION ONEWAY VOID IDENT "(" ")" "=" INTEGER ";"'), T('CONST PRIMITIVE IDENT "=" INTEGER ";"'),
+                                   T('LIST "<" STRING ">" IDENT "(" DIRECTION IDENT "[" "]" IDENT ")" ";"')]},
+        "parcelable": {"open": T('PARCELABLE IDENT "{"'), "elem": "OptParcelableElement", "term": '";"', "sep": None, "exclude": {'";"', '"{"', '"}"'},
+                       "siblings": [T('PRIMITIVE IDENT ";"'), T('IDENT IDENT ";"'), T('ANNOTATION MAP "<" STRING "," IDENT ">" IDENT "=" INTEGER ";"'), T('CONST STRING IDENT "=" QUOTED_STRING ";"')]},
+        "enum": {"open": T('ENUM IDENT "{"'), "elem": "OptEnumElement", "term": '","', "sep": '","', "exclude": {'";"', '"{"', '"}"', '","'},
+                 "siblings": [T('IDENT ","'), T('ANNOTATION IDENT "=" INTEGER ","')]},
+    }
+    track = ("OptInterfaceElement", "OptParcelableElement", "OptEnumElement", "OptItem")
+    L = 3 if ctx.tier == "thorough" else 2
+    t0 = time.time()
+    total = 0
+    distinct = 0
+    samples = []
+    for kname, k in sorted(kinds.items()):
+        # sanity: every sibling alone is a well-formed member
+        for sib in k["siblings"]:
+            doc = head + k["open"] + sib + ['"}"']
+            r = lrsim.parse(auto, doc, track)
+            good = r.ok and not r.errors and [x for x in r.reductions if x[0] == k["elem"] and x[1] != ("error",)]
+            rep.check(bool(good), "R5", "C14|R5|%s|sibling-wellformed|%s" % (kname, " ".join(sib)), "src/aidl.lalrpop", "frame sanity: `%s` must be a well-formed %s member in the model" % (render(sib), kname))
+        alpha = [t for t in vocab if t not in k["exclude"]]
+        viol = None
+        allv = []
+        nk = 0
+        Lk = L + 1 if (kname == "enum" and ctx.tier != "thorough") else L  # enum documents are short: one more token in the quick tier
+        for n in range(0, Lk + 1):
+            for M in itertools.product(alpha, repeat=n):
+                Mt = list(M) + [k["term"]]
+                alone = lrsim.parse(auto, head + k["open"] + Mt + ['"}"'], track)
+                if alone.ok and not alone.errors:
+                    continue  # not malformed
+                distinct += 1
+                befores = [None, k["siblings"][0]]
+                afters = [None] + k["siblings"]
+                for bf in befores:
+                    for af in afters:
+                        doc = head + k["open"]
+                        exp = []
+                        if bf:
+                            exp.append((len(doc), len(doc) + len(bf)))
+                            doc = doc + bf
+                        m0 = len(doc)
+                        doc = doc + Mt
+                        m1 = len(doc) - 1  # index of the terminator
+                        if af:
+                            exp.append((len(doc), len(doc) + len(af)))
+                            doc = doc + af
+                        doc = doc + ['"}"']
+                        if k["sep"]:
+                            # element spans exclude the separating comma
+                            exp = [(lo, hi - 1) for lo, hi in exp]
+                        r = lrsim.parse(auto, doc, track)
+                        total += 1
+                        nk += 1
+                        kept = [(x[2], x[3]) for x in r.reductions if x[0] == k["elem"] and x[1] != ("error",)]
+                        item_err = [x for x in r.reductions if x[0] == "OptItem" and x[1] == ("error",)]
+                        ok_tree = r.ok and r.error is None and not item_err
+                        # siblings outside the malformed member must be exactly the well-formed ones; members salvaged
+                        # from the malformed member's own tokens are not siblings
+                        kept_out = [x for x in kept if not (m0 <= x[0] and x[1] <= m1 + 1)]
+                        ok_sib = kept_out == exp
+                        ok_err = len(r.errors) >= 1 and all(m0 <= e <= m1 for e in r.errors)
+                        if not (ok_tree and ok_sib and ok_err):
+                            allv.append((doc, m0, m1, ok_tree, kept_out, exp, r.errors))
+                            if viol is None:
+                                viol = allv[-1]
+                        if len(samples) < 3 and n == 2 and bf and af and total % 97 == 0:
+                            samples.append({"document": render(doc), "malformed_member_tokens": [m0, m1], "siblings_kept": kept, "errors_at": r.errors})
+        rep.analysed["R5 documents (%s)" % kname] = nk
+        ALLV[kname] = allv
+        def klass(v):
+            doc, m0, m1 = v[0], v[1], v[2]
+            M = doc[m0:m1]
+            if kname == "enum":
+                for i, t in enumerate(M[:-1]):
+                    if t == "ANNOTATION" and M[i + 1] == '"("' and '")"' not in M[i + 2:]:
+                        return "comma-inside-open-annotation-parenthesis"
+            return None
+        groups = {}
+        for v in allv:
+            c = klass(v)
+            key_ = c if c else render(v[0][v[1]:v[2] + 1])
+            groups.setdefault(key_, v)
+        for key_, v in sorted(groups.items())[:5]:
+            doc, m0, m1, ok_tree, kept, exp, errs = v
+            what = []
+            if not ok_tree:
+                what.append("no tree is produced")
+            if kept != exp:
+                what.append("well-formed siblings at token spans %r are expected, the parser keeps %r" % (exp, kept))
+            if not (len(errs) >= 1 and all(m0 <= e <= m1 for e in errs)):
+                what.append("syntax errors at tokens %r, the malformed member spans tokens %d..%d" % (errs, m0, m1))
+            rep.fail("R5", "C14|R5|%s|%s" % (kname, key_), "src/aidl.lalrpop (%s body)" % kname,
+                     "in the parser model the malformed member `%s` of the document `%s` does not cost only itself: %s" % (render(doc[m0:m1 + 1]), render(doc), "; ".join(what)),
+                     witness={"document": render(doc), "malformed_member": render(doc[m0:m1 + 1])})
+        if not allv:
+            pass
+        if not allv:
+            rep.ok("R5", "C14|R5|%s" % kname, {"body": kname, "documents": nk, "max_malformed_tokens": L})
+    rep.analysed["R5 documents explored"] = total
+    rep.analysed["R5 distinct malformed members"] = distinct
+    rep.analysed["R5 bound (tokens in the malformed member, terminator excluded)"] = L
+    rep.analysed["R5 seconds"] = round(time.time() - t0, 1)
+    rep.samples += [{"rule": "R5", "obligation": "explored document", "evidence": s_} for s_ in samples]
+    rep.floor("R5", "documents explored on the parser model", total, 10000)
+    rep.assumptions += ["rule R5 trusts the transcription of lalrpop_util's recovery loop in rules/lrsim.py (cross-checked by hand against the real parser on a handful of inputs during development) and that the generated tables equal the exported automaton (TB-2)"]
